@@ -176,6 +176,9 @@ template <class NS> struct SolverSession : Session {
                 std::vector<bool> used(m, false);
                 for (int c : cperm) if (c >= 0 && c < m && !used[c]) { used[c] = true; order.push_back(c); }
                 for (int c = 0; c < m; c++) if (!used[c]) order.push_back(c);
+                bool allScale1 = true; for (double sc1 : model.s) if (sc1 != 1) allScale1 = false;
+                double shift = allScale1 ? op.num("shift", 0) : 0;
+                if (shift != 0) probe("vpsc.twin-translated");
                 typename NS::Vars tv(n); typename NS::Cons tc;
                 std::vector<double> xa(n), xb(n);
                 bool flagA = false, flagB = false;
@@ -189,10 +192,11 @@ template <class NS> struct SolverSession : Session {
                     for (auto c : rc) { flagA |= c->unsatisfiable; delete c; }
                     for (auto v : rv) delete v;
                     // permuted: variable i gets id perm[i] and sits at index perm[i]
-                    for (int i = 0; i < n; i++) tv[perm[i]] = new typename NS::Var(perm[i], model.d[i], model.w[i], model.s[i]);
+                    // ... and, for scale-1 problems, translated by an exactly representable offset (frame clause of C20)
+                    for (int i = 0; i < n; i++) tv[perm[i]] = new typename NS::Var(perm[i], model.d[i] + shift, model.w[i], model.s[i]);
                     for (int k : order) { const QCon &c = model.cs[k]; tc.push_back(new typename NS::Con(tv[perm[c.l]], tv[perm[c.r]], c.g, c.eq)); }
                     { typename NS::Inc s(tv, tc); s.solve(); }
-                    for (int i = 0; i < n; i++) xb[i] = tv[perm[i]]->finalPosition;
+                    for (int i = 0; i < n; i++) xb[i] = tv[perm[i]]->finalPosition - shift;
                     for (auto c : tc) { flagB |= c->unsatisfiable; delete c; }
                     for (auto v : tv) delete v;
                 });
@@ -202,7 +206,7 @@ template <class NS> struct SolverSession : Session {
                     double sc = scale(), md = 0;
                     for (int i = 0; i < n; i++) md = std::max(md, std::fabs(xa[i] - xb[i]));
                     if (md > 1e-5 * sc * 10) violate("C02", "order-independence", "permuted-twin-differs", fmt("max diff %g", md));
-                    if (md > 1e-5 * sc * 10) violate("C20", "frame", "vpsc-permutation-changes-solution", fmt("max diff %g", md));
+                    if (md > 1e-5 * sc * 10) violate("C20", "frame", shift != 0 ? "vpsc-translation-or-permutation-changes-solution" : "vpsc-permutation-changes-solution", fmt("max diff %g (shift %g)", md, shift));
                 }
             } else if (o == "static") {
                 // one-shot static solver on the current problem (fresh variables)
@@ -327,6 +331,7 @@ Json genSolverSession(Rng &r, const std::string &tier, int forceNs = -1) {
             std::vector<int> perm(n); for (int i = 0; i < n; i++) perm[i] = i;
             for (int i = n - 1; i > 0; i--) std::swap(perm[i], perm[r.below(i + 1)]);
             Json pj = Json::arr(); for (int x : perm) pj.push(x); t.set("perm", pj);
+            if (r.chance(0.5)) t.set("shift", (double)r.range(-200000, 200000) / 1024.0);
             Json cj = Json::arr(); int mm = 3 * n + 40; for (int i = 0; i < std::min(mm, 60); i++) cj.push((long)r.below(mm)); t.set("cperm", cj);
             ops.push(t);
         }
